@@ -8,5 +8,5 @@ PROP = dict(
     trusted_base=['z3 5.1 / cvc5 1.0.3', 'pyvc symbolic executor and its encoding of Python (DESIGN.md section 2.3)', 'CPython 3.12, PLY 3.11 (A-PLY)'],
     manifest=dict(text='Bounded: every arrangement of up to 6/7 instances into chains and rings, both phrases, every creation order; termination under a timer for arbitrary subsets.',
                   note='Orbit lemma (L-ORBIT) not needed at this level; cardinality respected on the reflexive link.',
-                  technique='bounded stand-in: run-time contracts on the real functions driven by exhaustive small-scope enumeration (labelled bounded, never counted as proved)'),
+                  technique='bounded stand-in (run-time contracts on the real functions driven by small-scope enumeration; labelled bounded, never counted as proved); no function of this property is within the reach of the deductive tier yet (reasons in DESIGN.md, build-round status)'),
 )
